@@ -115,6 +115,14 @@ pub fn compare(servers: &mut [Server], engine: &str, focus: &str, size: u32, byt
             None => return Err(format!("feature set [{}]: process died while executing the program", s.name)),
         };
         nviol_any += a.nviol;
+        // a monitor rule that decides C18 itself (e.g. leftovers of a dropped Stakker executed by a
+        // later one, which only some deferrers can even exhibit)
+        for vtext in a.first.split(" ;; ") {
+            let mut it = vtext.splitn(2, '|');
+            if it.next().unwrap_or("").split('+').any(|p| p == "C18") {
+                return Err(format!("feature set [{}]: {}", s.name, it.next().unwrap_or("")));
+            }
+        }
         match &first {
             None => {
                 first = Some((a.hash.clone(), a.events, s.name.clone()));
